@@ -648,8 +648,13 @@ func (ipv6cp *IPV6CPStateMachine) timeout() {
 		switch ipv6cp.state {
 		case IPV6CPStateClosing, IPV6CPStateStopping:
 			ipv6cp.sendTerminateRequest("Timeout")
-		case IPV6CPStateReqSent, IPV6CPStateAckRcvd, IPV6CPStateAckSent:
+		case IPV6CPStateReqSent, IPV6CPStateAckSent:
 			ipv6cp.sendConfigureRequest()
+		case IPV6CPStateAckRcvd:
+			// RFC 1661 TO+ in Ack-Rcvd: the retransmitted request carries a new identifier
+			// that the peer has not acknowledged, so fall back to Req-Sent
+			ipv6cp.sendConfigureRequest()
+			ipv6cp.setState(IPV6CPStateReqSent)
 		}
 	} else {
 		switch ipv6cp.state {
